@@ -14,6 +14,9 @@ use crate::xtapi::*;
 pub enum FileKind {
     Regular(Vec<u8>),
     Fifo(Vec<u8>),
+    /// a symbolic link to a file (under /proc) that reports size 0 but has
+    /// content; the content is read when the model needs it
+    ProcLink(String),
     Dir,
     Missing,
 }
@@ -70,6 +73,7 @@ impl Invocation {
                "files": self.files.iter().map(|f| match &f.kind {
                    FileKind::Regular(b) => json!({"name": f.name, "kind": "regular", "bytes": hex(b)}),
                    FileKind::Fifo(b) => json!({"name": f.name, "kind": "fifo", "bytes": hex(b)}),
+                   FileKind::ProcLink(t) => json!({"name": f.name, "kind": "proclink", "target": t}),
                    FileKind::Dir => json!({"name": f.name, "kind": "dir"}),
                    FileKind::Missing => json!({"name": f.name, "kind": "missing"}),
                }).collect::<Vec<_>>()})
@@ -94,6 +98,7 @@ impl Invocation {
                     let kind = match f["kind"].as_str()? {
                         "regular" => FileKind::Regular(bytes()?),
                         "fifo" => FileKind::Fifo(bytes()?),
+                        "proclink" => FileKind::ProcLink(f["target"].as_str()?.to_string()),
                         "dir" => FileKind::Dir,
                         _ => FileKind::Missing,
                     };
@@ -259,6 +264,8 @@ pub fn expectation(inv: &Invocation) -> Expect {
                         match inv.files.iter().find(|f| f.name == *p).map(|f| &f.kind) {
                             Some(FileKind::Regular(b)) => (b.clone(), if b.is_empty() { Mode::Reader(Sched::Full) } else { Mode::Slice }, display_name(p)),
                             Some(FileKind::Fifo(b)) => (b.clone(), Mode::Reader(Sched::Full), display_name(p)),
+                            // cannot be mapped: read like a stream
+                            Some(FileKind::ProcLink(t)) => (std::fs::read(t).unwrap_or_default(), Mode::Reader(Sched::Full), display_name(p)),
                             Some(FileKind::Dir) | Some(FileKind::Missing) | None => {
                                 failing = Some(Some(display_name(p)));
                                 break;
@@ -299,6 +306,9 @@ pub fn execute(inv: &Invocation) -> Res {
                 let p = sc.fifo(&f.name);
                 // only feed FIFOs that the run will actually open
                 fifos.push((p, b.clone()));
+            }
+            FileKind::ProcLink(t) => {
+                std::os::unix::fs::symlink(t, sc.dir.join(&f.name)).expect("symlink");
             }
             FileKind::Dir => {
                 let _ = std::fs::create_dir_all(sc.dir.join(&f.name));
